@@ -260,22 +260,29 @@ def share_families(sigs):
 
 
 def wraps_families(rng, sigs):
-    """different functions behind the same functools.wraps decorator, canonicalised alternately"""
+    """different functions -- and METHODS -- behind functools.wraps decorators (four wrapper signatures, see
+    c07_impl.DECORATORS: the wrappers' own variable names 'b' / 'd' coincide with generated parameter names),
+    canonicalised alternately; bound methods also with ignore=[receiver name]"""
     groups = []
-    n = len(sigs)
-    for i, sig in enumerate(sigs):
-        fam = [sig, sigs[(7 * i + 3) % n], sigs[rng.randrange(n)]]
-        shapes = []
-        for sg in fam:
-            for pos, kw, _ in calls_for(sg, None):
-                if len(kw) <= 2 and not any(k in ("z", "a") for k, _ in kw):
-                    shapes.append((pos, kw))
-        calls = []
-        for pos, kw in shapes[:60]:
-            for idx in (0, 1, 2):
-                calls.append([pos, kw, None, idx])
-        groups.append({"sig": sig, "meth": None, "family": {"kind": "wraps", "sigs": fam}, "calls": calls,
-                       "stream": "wraps"})
+    for meth in (None, "pk", "po"):
+        pool = [sg for sg in sigs if not meth or len(sg) <= 2]
+        n = len(pool)
+        for i, sig in enumerate(pool):
+            fam = [sig, pool[(7 * i + 3) % n], pool[rng.randrange(n)]]
+            shapes = []
+            for sg in fam:
+                for pos, kw, _ in calls_for(sg, meth):
+                    if len(kw) <= 2 and not any(k in ("z", "a") for k, _ in kw):
+                        shapes.append((pos, kw))
+            calls = []
+            for pos, kw in shapes[:60]:
+                for idx in (0, 1, 2):
+                    calls.append([pos, kw, None, idx])
+                    if meth and not kw:
+                        calls.append([pos, kw, [SELF_NAME], idx])
+            wrappers = [i % 4, (i + 1) % 4, (i + 2) % 4] if meth else [0, 0, 0] if i % 2 == 0 else [1, 3, 0]
+            groups.append({"sig": sig, "meth": meth, "family": {"kind": "wraps", "sigs": fam, "wrappers": wrappers},
+                           "calls": calls, "stream": "wraps"})
     return groups
 
 
